@@ -77,6 +77,10 @@ def rel_is_empty (_ : Env) (r : List Msg) : Except Err (List Msg × Bool) := .ok
 def abs_equals (e : Env) (a : List Msg) (b : List Msg) (ic its iks iv : Bool) : Except Err (List Msg × Bool) :=
   .ok (sortAbs a, equalsAbs e.ppqn { ignoreCh := ic, ignoreTs := its, ignoreKs := iks, ignoreVel := iv } a b)
 
+/-- `AbsoluteSequence.__eq__(o)`: `return self.equals(o)` — `equals` with every ignore flag at its default `False` (the body of this dunder
+    method and the defaults of `equals` are pinned: tools/conventions.py, `WrapTie.defaults_pinned`) -/
+def abs___eq__ (e : Env) (a : List Msg) (b : List Msg) : Except Err (List Msg × Bool) := abs_equals e a b false false false false
+
 /-- `Sequence(absolute_sequence, relative_sequence)` (`Sequence.__init__`, sequence.py:35-59): which of
     the two views is given decides the flags -/
 def seq_init (a r : Option (List Msg)) : Seq :=
